@@ -34,6 +34,9 @@ double vf_angle(const char * n, double, double) { return vf_f64(n); }
 double vf_pi() { return M_PI; }
 int64_t vf_enum(int64_t v) { return v; }
 bool vf_symbolic() { return false; }
+void vf_watch(const void *, int64_t, const void *, const char *) {}
+void vf_thread(int64_t, const char *) {}
+void vf_watch_end() {}
 double vf_havoc(int64_t) { return std::nan(""); }
 bool vf_near(double a, double b, double tol)
 {
